@@ -585,7 +585,11 @@ var ExpireBound int64 = 1000000000 // äº¤æ˜“è¿‡æœŸåˆ†ç•Œçº¿ï¼Œå°äºexpireBoundæ
 // IsExpire äº¤æ˜“æ˜¯å¦è¿‡æœŸ
 func (tx *Transaction) IsExpire(cfg *Chain33Config, height, blocktime int64) bool {
 	group, _ := tx.GetTxGroup()
-	if group == nil {
+	// äº¤æ˜“ç»„çš„æˆå‘˜äº¤æ˜“ Header å­˜æ”¾çš„æ˜¯ç»„å¤´å“ˆå¸Œ(32å­—èŠ‚), å¹¶éç¼–ç åçš„äº¤æ˜“ç»„;
+	// è¯¥å“ˆå¸Œå¶å°”(çº¦ 1/500, å¯è¢«æ„é€ )èƒ½è¢«è§£ææˆä¸€ä¸ªç©ºçš„äº¤æ˜“åˆ—è¡¨, æ­¤æ—¶ä¸èƒ½å½“ä½œäº¤æ˜“ç»„å¤„ç†,
+	// å¦åˆ™æˆå‘˜è‡ªèº«çš„è¿‡æœŸæ—¶é—´ä¼šè¢«è·³è¿‡. åªæœ‰è§£æç»“æœç¡®å®æ˜¯æœ¬äº¤æ˜“æ‰€åœ¨çš„ç»„æ—¶æ‰æŒ‰ç»„åˆ¤æ–­.
+	if group == nil || len(group.GetTxs()) != int(tx.GetGroupCount()) ||
+		!bytes.Equal(group.GetTxs()[0].Hash(), tx.Hash()) {
 		return tx.isExpire(cfg, height, blocktime)
 	}
 	return group.IsExpire(cfg, height, blocktime)
